@@ -292,6 +292,8 @@ _EXTRA = {
     'R97': (['C02', 'C03', 'C05', 'C11', 'C12', 'C20'], 'R97: in _configure_node no path leads from the unexpected-inversion arm to the recursive call without the push flag having been cleared.'),
     'R98': (['C01', 'C09', 'C20'], 'R98: _parse_comments stores a key/value pair exactly under the "found" fact of the "::" split, scans while text is left, and returns the map it filled.'),
     'R99': (['C07', 'C19', 'C20'], 'R99: in _parse_triple each way of obtaining the target is justified by facts on the path (rest non-empty / comma seen / token starts with a comma), and the only raise is under "a token that neither is nor starts with a comma", reported at that token.'),
+    'R100': (['C10', 'C20'], 'R100: _map_vars indexes the rename map only under `ref in varmap` (or with the node variable), and reset_variables takes the concept from the branch whose role is "/".'),
+    'R101': (['C02', 'C03', 'C04', 'C05', 'C11', 'C12', 'C14', 'C15', 'C16'], 'R101: by E3 types, no == / != compares a role with a variable or constant, or a container with a string (a comparison with a fixed outcome means the wrong slot is looked at).'),
     'R87': (['C20', 'C17'], 'R87: the option tables main() builds once are only read by process/_process_in/_process_out (alias-following over what is unpacked from them).'),
     'R86': (['C01', 'C07', 'C09', 'C20'], 'R86: an argument annotated as Iterable / Iterator / file is walked at most once on every path (a second walk of a file or generator finds nothing).'),
 }
